@@ -2,6 +2,7 @@
 """print the prompt for a seeding agent: only the property text + its worktree (nothing from /verif)"""
 import json, sys
 pid, n = sys.argv[1], sys.argv[2]
+avoid = sys.argv[3] if len(sys.argv) > 3 else ""
 props = {json.loads(l)['id']: json.loads(l) for l in open('/verif/properties.jsonl')}
 p = props[pid]
 wt = "/tmp/seed-%s-%s" % (pid, n)
@@ -23,6 +24,7 @@ Your task: make a REALISTIC change to the source (the kind of defect a competent
   (b) ALL 89 existing tests still pass (run them; do not edit any test),
   (c) the breakage needs something specific to manifest — a particular interleaving, a crash or fault at a particular point, a multi-step sequence of operations, an unusual input, or two cooperating sites that each look fine alone — i.e. it is NOT exposed at once by ordinary use of the tools on ordinary inputs,
   (d) the change is small (a few lines, at most two sites) and touches only non-test source files of the project.
+{("An earlier volunteer already produced this defect, so choose a DIFFERENT mechanism, file and manifestation: " + avoid) if avoid else ""}
 Do not break the build system, do not add dead `if (getenv(...))` back doors or magic-value special cases: the defect must be a natural-looking logic error.
 
 Deliver in `{wt}-out/`:
